@@ -26,13 +26,23 @@ COMPONENTS = {"real": ["pel.peltool.peltool.main() in-process, all decoders"],
               "stub": ["directory enumeration order (SimFS)", "stdout capture", "fake pel_registry (message registry / component names) in part of the runs"]}
 ASSUMPTIONS = ["directories contain only well-formed PELs with distinct entry ids (precondition of the property)",
                "which PELs an option set selects is not judged here (C07) except under -E, where every PEL must appear"]
-PROBES = ["perm_not_sorted", "reverse", "ext_filter", "hex", "selected_lt_total", "empty_dir", "message_in_list"]
+PROBES = ["pel_over_2KiB", "perm_not_sorted", "reverse", "ext_filter", "hex", "selected_lt_total", "empty_dir", "message_in_list"]
 
 
 def gen_plan(rng, tier, run):
     n = rng.choice([0, 1, 2, 3, 4, 5, 6, 8, 12])
     ext = rng.choice([None, None, [".pel"], [".pel", ".txt", ""], [".pel", ".PEL", ".pel.bak"]])
-    files = common.gen_store(rng, n, ext=ext, max_sections=4)
+    files = common.gen_store(rng, n, ext=ext, max_sections=4, ud_targets=[("O", 0x2000)] if rng.random() < 0.4 else None)
+    # some PELs well above 2 KiB: no primary SRC and large sections, or an SRC with the maximum of 10 callouts
+    for f in files:
+        c = rng.random()
+        if c < 0.05:
+            f["recipe"]["sections"] = [s for s in f["recipe"]["sections"] if s["kind"] != "src"]
+            for _ in range(rng.randint(1, 3)):
+                f["recipe"]["sections"].append(dict(pelgen.gen_raw(rng), payload=bytes(rng.randrange(256) for _ in range(rng.randint(900, 3000))).hex()))
+        elif c < 0.10:
+            f["recipe"]["sections"] = [pelgen.gen_src(rng, "PS", f["recipe"]["creator"], callouts=10)] + \
+                [s for s in f["recipe"]["sections"] if s["kind"] != "src"]
     plan = {"files": files,
             # process model: every invocation in a fresh module set (= its own process) or all in one process
             "fresh": rng.random() < 0.5,
@@ -40,6 +50,7 @@ def gen_plan(rng, tier, run):
             "rev": rng.random() < 0.4,
             "ext": rng.choice([".pel", ".txt", ".PEL", ".bak"]) if ext and rng.random() < 0.7 else None,
             "hex": rng.random() < 0.25,
+            "stdout_encoding": rng.choice(["utf-8", "utf-8", "utf-8", "ascii", "latin-1"]),
             "skip_plugins": rng.random() < 0.2,
             "registry": common.gen_registry(rng, [f["recipe"] for f in files]) if rng.random() < 0.5 else None,
             # invocations executed earlier in the same module set (a library user / test harness calling main() repeatedly):
@@ -66,6 +77,8 @@ def execute(plan):
     files = plan["files"]
     by_eid = {f["recipe"]["eid"]: f for f in files}
     datas = {f["name"]: common.file_data(f) for f in files}
+    if any(len(d) > 2048 for d in datas.values()):
+        bump("pel_over_2KiB")
     base = ["-p", "@/D"] + plan["opts"] + (["-e", plan["ext"]] if plan["ext"] else []) + (["-P"] if plan["skip_plugins"] else [])
     rev = ["-r"] if plan["rev"] else []
     events = 0
@@ -85,11 +98,12 @@ def execute(plan):
                     bump("prelude")
         res = {}
         prelude(0)
-        res["n"] = w.run(base + ["-n"] + rev, order=plan["orders"]["n"])
+        enc = plan.get("stdout_encoding", "utf-8")
+        res["n"] = w.run(base + ["-n"] + rev, order=plan["orders"]["n"], stdout_encoding=enc)
         prelude(1)
-        res["l"] = w.run(base + ["-l"] + rev, order=plan["orders"]["l"])
+        res["l"] = w.run(base + ["-l"] + rev, order=plan["orders"]["l"], stdout_encoding=enc)
         prelude(2)
-        res["a"] = w.run(base + ["-a"] + rev, order=plan["orders"]["a"])
+        res["a"] = w.run(base + ["-a"] + rev, order=plan["orders"]["a"], stdout_encoding=enc)
         if plan["hex"]:
             res["lx"] = w.run(base + ["-l", "-x"] + rev, order=plan["orders"]["lx"])
             res["ax"] = w.run(base + ["-a", "-x"] + rev, order=plan["orders"]["ax"])
